@@ -143,6 +143,22 @@ def run(rep, tier, build, replay=None):
                 if sc != full:
                     rep.fail('scan_lexicons() differs from the lexicons of a full load', case,
                              {'scan': sc, 'load': full})
+    # tie of Model/Scan.v to wn.lmf.scan_lexicons: generated, mutated and crafted files (raw bytes in, list of infos or
+    # error class out)
+    import scanmodel
+    sjobs = scanmodel.gen_jobs(random.Random(common.seed() * 7919 + 2020), 40 if tier == 'quick' else 400)
+    souts = common.run_impl_parallel('run_scan.py', [{'jobs': sjobs[i::common.NPROC]} for i in range(common.NPROC) if sjobs[i::common.NPROC]])
+    spairs = [pr for o in souts for pr in (scanmodel.to_pair(r_) for r_ in o) if pr is not None]
+    spairs = [(list(a), b) for a, b in spairs]
+    smism, sinfo = common.coq_mismatches('WnV.Model.Scan', 'run_scan', 'sx_agree_default', spairs, tag='c20scan', shard=6,
+                                         want_model_out=False)
+    if sinfo['errors']:
+        rep.broke('scan correspondence evaluation failed in Coq: ' + '; '.join(sinfo['errors'])[:1500])
+    if smism:
+        rep.broke('correspondence Model/Scan.v vs wn.lmf.scan_lexicons: %d of %d files differ (first input starts: %s)'
+                  % (len(smism), len(spairs), bytes(spairs[smism[0]][0][:200]).decode('utf-8', 'replace')))
+    rep.coverage['scan_traces_validated_against_impl'] = len(spairs)
+    rep.coverage['scan_correspondence_mismatches'] = len(smism)
     rep.coverage.update({
         'evaluations': len(jobs),
         'distinct_nontrivial': len(nontriv),
